@@ -189,3 +189,66 @@ for (qcls, mode), want in EXPECTED_MODE.items():
     c = Case(f"{qsrc}-{mode.name}", [qualified(qcls, qsrc, Unsigned, True), M.UShape("w2", "b", max_width=1), Const(mode, f"cohdl._core._intrinsic_operations.AssignMode.{mode.name}")], spec,
              requires=lambda env: env["w2"] <= env["w"])
     con.cases.append(c)
+
+
+# ---- TypeQualifier._init_replacement: INITIALISATION inside a synthesizable context ------------------------------------
+# `local = Variable[T](value)` does not pass through a setter: the declaration itself must apply the conversion matrix
+# (rejected pairs must not reach the backend, whose casts would reinterpret or truncate the value).
+from cohdl._core._intrinsic_operations import _IntrinsicDeclaration  # noqa: E402
+
+
+def _tq_cls_attr_min(it, cls, name):
+    if isinstance(cls, SCls) and name == "_Wrapped" and "wrapped" in cls.params:
+        return cls.params["wrapped"]
+    if isinstance(cls, SCls) and name == "__base_kind__":
+        return cls.kind
+    return I._MISSING
+
+
+I.CLS_ATTR_MODELS.setdefault(TypeQualifier, _tq_cls_attr_min)  # contracts/c13_types.py registers a superset when loaded
+
+
+def fresh_qualified(qcls, kind):
+    def make(env):
+        W = SCls(kind, width=env["w"])
+        o = SObj(SCls(qcls, wrapped=W), _Wrapped=W)
+        return o
+
+    return Built(["w"], make, lambda asg: "<new object>", lambda asg: None, lambda env: env["w"] >= 1)
+
+
+def _tq_init_model(it, self, value=None, **kw):
+    # TypeQualifier.__init__(None, ...): the object starts uninitialised, without default
+    w = self.fields["_Wrapped"]
+    self.fields.update(_value=vec(w.kind, w.params["width"], 0, known=False), _default=None, _name=kw.get("name"), _ref_spec=[], _attributes=[], _noreset=False)
+    self.fields["_root"] = self
+    return None
+
+
+def init_spec(kind):
+    def spec(sx, self, value=None, **kw):
+        tw = self.fields["_Wrapped"].params["width"]
+        prim = value.fields["_value"] if isinstance(value, SObj) and issubclass(value.kind, TypeQualifier) else value
+        convert(sx, kind, tw, prim)  # pairs the matrix rejects are rejected here
+
+        def holds(res):
+            return bool(isinstance(res, SObj) and res.kind is _IntrinsicDeclaration and res.fields.get("new_obj") is sx.real_args[0] and res.fields.get("assigned_value") is sx.real_args[1])
+
+        return C.Pred(holds, "declaration of the new object with the given initial value")
+
+    return spec
+
+
+for qcls in (Signal, Variable, Temporary):
+    # Signal has its own copy of the replacement (delayed_init support); Variable / Temporary use TypeQualifier's
+    con = contract(TQMOD + ("Signal._init_replacement" if qcls is Signal else "TypeQualifier._init_replacement"), PROPS)
+    for K, srck, VS in KINDS:
+        for nm, shp in value_sources():
+            if nm in ("bool", "null", "full", "int", "Integer", "bit"):
+                continue  # literals are folded into the declaration by the constructor matrix itself (C05 construct cases)
+            c = Case(f"{qcls.__name__}[{K.__name__}]<-{nm}", [fresh_qualified(qcls, K), shp], init_spec(K))
+            c.native = False
+            c.may_reject = AssertionError
+            c.models = [(k.__dict__["__init__"], _tq_init_model) for k in (TypeQualifier, Signal, Variable, Temporary) if "__init__" in k.__dict__]
+            c.models.append((BitVector.__dict__["_is_uninitialized"], lambda it, self: not self.fields.get("known", True)))
+            con.cases.append(c)
